@@ -144,6 +144,14 @@ def d5(ctx, prog):
             if not nm:
                 ctx.undecided('C03-D5', key, f'dimension of the value returned by {comp.qualname} not derivable', comp.where())
             continue
+        # dynamic range: the accumulators are of degree <= 2 in the data scale (u, v); an intermediate of higher degree (the product of
+        # two variances before the square root, say) leaves the range of the working precision for data the accumulators still hold
+        deg = lambda d_: sum(e_ for s_, e_ in d_.items() if s_ in ('u', 'v') and e_ > 0)    # noqa: E731
+        top = max([deg(d_) for d_ in attrs.values() if isinstance(d_, dict)] + [2])
+        over = [(node, d_) for node, d_ in getattr(xc, 'seen', []) if deg(d_) > top]
+        ctx.check(not over, 'C03-D5', key + ' range', f'`{norm(over[0][0])[:70] if over else ""}` has dimension {units.show(over[0][1]) if over else ""}: degree {deg(over[0][1]) if over else 0} in the data scale, '
+                  f'while the accumulators are of degree {top} at most - in float32 it overflows (inf, then a result of 0 or NaN) for data whose sums of squares are still representable',
+                  f'no intermediate of {comp.qualname} exceeds degree {top} in the data scale', comp.where(over[0][0]) if over else comp.where())
         wantd = dims.U(**want)
         bad = [d for d in rets if d != wantd and d != units.CONST]
         ctx.check(not bad, 'C03-D5', key, f'{comp.qualname} returns a value of dimension {units.show(bad[0]) if bad else ""}; {what} has dimension {units.show(wantd)} '
